@@ -31,8 +31,8 @@ func init() {
 		id:    "C10",
 		title: "Any font that was read can be written and re-read without further change",
 		explanation: "Decides structural clauses of C10: (a) name provenance — every conversion of non-constant data to a PostScript name in the interpreter is fed from bytes that passed the regular-character test, or is used for look-ups only, so that glyph names, encoding entries and the font name of a font that was read are accepted by the name serialiser (whose panic is the only data-dependent failure of the writer); " +
-			"(b) the path-command switch of the encoder is exhaustive and every GlyphOp literal in the reader has the number of coordinates the encoder indexes; (c) template escaping — every string-typed field is written through PS, PN or the comment sanitiser, or is length-prefixed binary; a field written raw is also written through PN, which rejects line breaks; (d) quantisation sources — the only rounding calls on the write path are the two width roundings, and the only lossy number path is appendNumber (C20); (e) the default-elision window and the defaults agree (shared with C09). " +
-			"It does NOT decide equality under tolerance, idempotence of the second cycle, nor non-finite numbers.",
+			"(b) the path-command switch of the encoder is exhaustive and every GlyphOp literal in the reader has the number of coordinates the encoder indexes; (c) template escaping — every string-typed field is written through PS, PN or the comment sanitiser, or is length-prefixed binary; a field written raw is also written through PN, which rejects line breaks; (d) quantisation sources — the only rounding calls on the write path are the two width roundings, and the only lossy number path is appendNumber (C20), which is a projection: integral values pass unchanged, every denominator 1..107 is tried and the best one taken, the quotient written is the value returned (so a value that was read back is written as itself); (e) the default-elision window and the defaults agree (shared with C09). " +
+			"It does NOT decide equality under tolerance, idempotence of the second cycle as a numerical statement, nor non-finite numbers.",
 		trusted:     []string{"text/template/parse", "go/ssa"},
 		assumptions: []string{"finite numbers"},
 		run:         func(c *Ctx) { runRoundTrip(c, true) },
@@ -336,6 +336,11 @@ func runRoundTrip(c *Ctx, closure bool) {
 	if closure {
 		c.nameProvenance()
 		c.roundingSources()
+		// the one lossy number path must be a projection, or the second write/read cycle moves the
+		// coordinates again: appendNumber takes the best of ALL denominators 1..107 (a value p/q
+		// that was read back is then reproduced with error 0, nothing nearer exists) and returns
+		// exactly the quotient it wrote (C20's rule)
+		c.fractionEncoder(info)
 		c.glyphOpSwitches()
 		c.glyphOpLiterals()
 		c.writerPanics()
